@@ -25,6 +25,27 @@ Definition dispatch (kind : string) (args : list string) : string :=
         end
     | None => BADARGS
     end
+  else if String.eqb kind "stale" then
+    (* the same, on a handler that found a lease file written under other prefix lengths;
+       ops carry IP source 0 (Session.Parse then leaves the session alone whatever the NIC prefix) *)
+    match parse_cfg args with
+    | Some (c, hb :: nb :: rest) =>
+        match N_of_dec hb, N_of_dec nb, parse_ops rest with
+        | Some hb, Some nb, Some ops =>
+            if forallb (fun o => match op_msg o with Some m => m_src m =? 0 | None => true end) ops then
+              let cm := loaded_cfg c hb nb in
+              let h := with_ch0 ops in
+              let '(s, rs) := run cm (init cm) h in
+              let obs := show_run s rs in
+              let tr := trace cm (init cm) h in
+              let fs := map (c11_fails c) tr in
+              if all_nil fs then out3 obs obs "-"
+              else out3 obs ("viol " ++ show_fails fs) (hist_key (c11_class c) (combine tr fs) None)
+            else BADARGS
+        | _, _, _ => BADARGS
+        end
+    | _ => BADARGS
+    end
   else BADARGS.
 
 Definition dispatch_line (l : string) : string :=
